@@ -1,6 +1,7 @@
 /-
   Props/C08.lean — operator overrides and pass-through modes do exactly what they say.
 -/
+import CircuitProofs.Props.C08Tie
 import CircuitProofs.Props.CircuitCommon
 import CircuitProofs.Lemmas.CircuitB
 namespace CM.Props.C08
